@@ -5,11 +5,11 @@
    greedy entry point (C01_greedy_decision: never Panicked) and saturation of the linear scorers
    (C03_no_wrap); the optimal entry point including the DP never panics (C10_dp_no_panic) and its result
    is independent of the scratch row's prior content (C10_history).  Not modelled: pointer provenance of
-   the slab views, the back-pointer cells' flat layout (the model keeps them per row), substring /
-   prefix / postfix / exact panic-freedom beyond what C05_substring / C01 state (validated by the
-   call-sequence harness in the debug profile). *)
+   the slab views, the back-pointer cells' flat layout (the model keeps them per row).  C10_total covers all six
+   algorithms (model-level Panicked outcomes: the prefilter assertion, unwrap/expect on empty ranges,
+   slice / u16 index arithmetic). *)
 From Coq Require Import NArith List Bool.
-From NV Require Import Model.Matcher Spec.Matching Spec.Statements Proofs.LayoutFacts Proofs.C01Facts Proofs.ScoreFacts Proofs.DPFacts.
+From NV Require Import Model.Matcher Spec.Matching Spec.Statements Proofs.LayoutFacts Proofs.C01Facts Proofs.ScoreFacts Proofs.DPFacts Proofs.TotalFacts.
 Local Open Scope N_scope.
 
 Theorem C10_layout : C10_layout_stmt.
@@ -40,6 +40,10 @@ Proof. exact ScoreFacts.C03_no_wrap_weak. Qed.
 Theorem C10_dp_no_panic : DP_no_panic_stmt.
 Proof. exact DPFacts.DP_no_panic. Qed.
 
+(* every one of the six algorithms is total: no entry point ever panics on a normalised needle *)
+Theorem C10_total : C10_total_stmt.
+Proof. exact TotalFacts.C10_total. Qed.
+
 (* history independence: the result does not depend on what earlier calls left in the scratch row
    (no slot is read before it is written in the same call) *)
 Theorem C10_history : C10_history_stmt.
@@ -56,3 +60,4 @@ Print Assumptions C10_greedy_total.
 Print Assumptions C10_no_wrap.
 Print Assumptions C10_dp_no_panic.
 Print Assumptions C10_history.
+Print Assumptions C10_total.
